@@ -472,7 +472,14 @@ package rlwe
 //@   trusted opaque at the abstract level: a scale
 
 //@ afunc Scale.Div
-//@   trusted opaque at the abstract level: a scale
+//@   trusted opaque at the abstract level: a scale whose abstract value (uf_sv) is NAMED as a function of the values of the two operands
+//@   assigns
+//@   ensures uf_sv(contentid(result)) == uf_sdiv(uf_sv(contentid(s)), uf_sv(contentid(s1)))
+
+//@ afunc Parameters.NewScale
+//@   trusted opaque at the abstract level: the scale of a number, modulo the plaintext modulus where there is one; its abstract value is NAMED as a function of the number
+//@   assigns
+//@   ensures uf_sv(contentid(result)) == uf_newscale(unbox(scale))
 
 // ---- rlwe.Parameters (property C08): the encoding is a 4-byte length followed by that many bytes of
 // ---- JSON; on success exactly 4 + length bytes are consumed, whatever the chunking of the transport
